@@ -41,20 +41,57 @@ func FromReaders(readers ...io.Reader) (*Dialogue, error) {
 }
 
 // FromReader creates a dialogue tree by reading the content of reader.
-func FromReader(reader io.Reader) (*Dialogue, error) {
+// An error is returned if the content is not a syntactically valid script.
+func FromReader(reader io.Reader) (dialogue *Dialogue, err error) {
 	scriptData, err := io.ReadAll(reader)
 	if err != nil {
 		return nil, fmt.Errorf("failed to read content: %w", err)
 	}
+
+	defer func() {
+		// the lexer panics on indentation mixing tabs and spaces
+		if r := recover(); r != nil {
+			dialogue, err = nil, fmt.Errorf("failed to parse content: %v", r)
+		}
+	}()
+
 	input := antlr.NewInputStream(string(scriptData))
 	var (
-		lexer    = parser.NewYarnSpinnerLexer(input)
-		stream   = antlr.NewCommonTokenStream(lexer, antlr.LexerDefaultTokenChannel)
-		p        = parser.NewYarnSpinnerParser(stream)
-		listener = &parserListener{}
+		lexer         = parser.NewYarnSpinnerLexer(input)
+		stream        = antlr.NewCommonTokenStream(lexer, antlr.LexerDefaultTokenChannel)
+		p             = parser.NewYarnSpinnerParser(stream)
+		listener      = &parserListener{}
+		errorListener = &syntaxErrorListener{}
 	)
+	lexer.RemoveErrorListeners()
+	lexer.AddErrorListener(errorListener)
+	p.RemoveErrorListeners()
+	p.AddErrorListener(errorListener)
 
-	antlr.ParseTreeWalkerDefault.Walk(listener, p.Dialogue())
+	parseTree := p.Dialogue()
+	if len(errorListener.errors) != 0 {
+		return nil, fmt.Errorf("failed to parse content: %w", errors.Join(errorListener.errors...))
+	}
+	if next := stream.LT(1); next != nil && next.GetTokenType() != antlr.TokenEOF {
+		return nil, fmt.Errorf("failed to parse content: line %d:%d unexpected input after the last node", next.GetLine(), next.GetColumn())
+	}
+
+	antlr.ParseTreeWalkerDefault.Walk(listener, parseTree)
+
+	if listener.dialogue == nil || len(listener.dialogue.Nodes) == 0 {
+		return nil, errors.New("failed to parse content: no node found")
+	}
 
 	return listener.dialogue, nil
+}
+
+// syntaxErrorListener collects the syntax errors reported by the lexer and the parser.
+type syntaxErrorListener struct {
+	*antlr.DefaultErrorListener
+	errors []error
+}
+
+// SyntaxError is called when the lexer or the parser encounters invalid input.
+func (l *syntaxErrorListener) SyntaxError(_ antlr.Recognizer, _ interface{}, line, column int, msg string, _ antlr.RecognitionException) {
+	l.errors = append(l.errors, fmt.Errorf("line %d:%d %s", line, column, msg))
 }
